@@ -238,7 +238,12 @@ def run(E: Engine, rep: Report, tier: str) -> dict:
                 n_round += 1
                 rep.check(dec is not None and norm(dec) == "COORD_PRECISION", "TABLE", f"{f.short}|round-uses-COORD_PRECISION", "coordinate rounding uses the shared precision constant", f"`{norm(n)[:80]}` rounds with {norm(dec) if dec is not None else 'the default'} instead of COORD_PRECISION", E.where(f, n))
     gq = P.lookup_method(wm, "get_qubit_weight_map")[0]
-    tol_ok = any(isinstance(k, ast.keyword) and k.arg == "atol" and "COORD_PRECISION" in norm(k.value) for n in ast.walk(gq.node) if isinstance(n, ast.Call) for k in n.keywords)
+    from .symutil import S as _S, is_ as _is
+
+    tol_ok = False
+    for l in _S(E, gq).calls("isclose"):
+        kw = dict(l.value[3])
+        tol_ok = tol_ok or ("atol" in kw and _is(kw["atol"], "10 ** (-COORD_PRECISION)") is not None)
     rep.check(tol_ok, "TABLE", "WeightMap.get_qubit_weight_map|tolerance-uses-COORD_PRECISION", "position matching tolerance derives from COORD_PRECISION", "qubit/trap matching no longer uses the COORD_PRECISION tolerance", E.where(gq))
     rep.floor("TABLE", 4)
 
